@@ -27,7 +27,7 @@ def _run_rules(prop: str, root: str) -> Tuple[List[Tuple[str, str]], List[str]]:
 
 
 def _one(args) -> Dict:
-    prop, name, relfile, old, new, expect, count = args
+    prop, name, relfile, old, new, expect, count, also = args
     tmp = tempfile.mkdtemp(prefix="verif_mut_")
     try:
         src = os.path.join(tmp, "src")
@@ -40,6 +40,12 @@ def _one(args) -> Dict:
         if text.count(old) != count:
             return {"name": name, "status": "skipped", "why": f"anchor text occurs {text.count(old)}x (expected {count})"}
         text2 = text.replace(old, new)
+        if also:
+            if text2.count(also[0]) < 1:
+                return {"name": name, "status": "skipped", "why": "second anchor missing"}
+            # the last occurrence (the function edited above is the last one using this idiom)
+            i = text2.rindex(also[0])
+            text2 = text2[:i] + also[1] + text2[i + len(also[0]):]
         try:
             compile(text2, path, "exec")
         except SyntaxError as e:
@@ -59,7 +65,7 @@ def run_for_property(prop: str, rep: Report) -> None:
         return
     muts = mm.MUTANTS
     base = {(i.rule, i.full_key()) for i in rep.instances if not i.ok}
-    jobs = [(prop, m["name"], m["file"], m["old"], m["new"], m["expect"], m.get("count", 1)) for m in muts]
+    jobs = [(prop, m["name"], m["file"], m["old"], m["new"], m["expect"], m.get("count", 1), m.get("also")) for m in muts]
     with ProcessPoolExecutor(max_workers=min(16, max(1, len(jobs)))) as ex:
         results = list(ex.map(_one, jobs))
     killed = survived = skipped = 0
